@@ -31,6 +31,9 @@ pub enum K {
 
 #[derive(Clone, Debug, PartialEq, Eq)]
 pub struct Ev {
+    /// logged while the harness's root scope (a tokio task-local set around polling the macro's future)
+    /// is visible, i.e. in the caller's task rather than in a spawned task
+    pub root: bool,
     /// logged by a thread that first logged in an earlier run (a straggler), not part of this run
     pub stale: bool,
     pub seq: u32,
@@ -43,6 +46,13 @@ pub struct Ev {
 static LOG: Mutex<Vec<Ev>> = Mutex::new(Vec::new());
 static THREADS: Mutex<Vec<Option<String>>> = Mutex::new(Vec::new());
 static NEXT_THR: AtomicU32 = AtomicU32::new(0);
+
+tokio::task_local! {
+    pub static ROOT: u8;
+}
+pub fn in_root() -> bool {
+    ROOT.try_with(|_| ()).is_ok()
+}
 
 static EPOCH: AtomicU32 = AtomicU32::new(1);
 thread_local! {
@@ -97,7 +107,7 @@ pub fn log(k: K, id: u16, h: &[u16]) {
     let stale = is_stale();
     let mut l = LOG.lock().unwrap_or_else(|e| e.into_inner());
     let seq = l.len() as u32;
-    l.push(Ev { stale, seq, k, id, thr, h: h.to_vec() });
+    l.push(Ev { root: in_root(), stale, seq, k, id, thr, h: h.to_vec() });
 }
 
 pub fn len() -> usize {
